@@ -74,6 +74,8 @@ type BatchedWriter struct {
 	store          KVStore
 	writeWg        sync.WaitGroup
 	startStopMutex syncutils.Mutex
+	// enqueueMutex makes the running check and the queue send of Enqueue atomic with respect to StopBatchWriter.
+	enqueueMutex   sync.RWMutex
 	autoStartOnce  sync.Once
 	running        atomic.Bool
 	scheduledCount atomic.Int32
@@ -120,7 +122,11 @@ func (bw *BatchedWriter) startBatchWriter() {
 func (bw *BatchedWriter) StopBatchWriter() {
 	bw.startStopMutex.Lock()
 	if bw.running.Load() {
+		// wait for the Enqueue calls that already passed the running check: their objects are
+		// counted and queued before the writer gets to see that it has to stop.
+		bw.enqueueMutex.Lock()
 		bw.running.Store(false)
+		bw.enqueueMutex.Unlock()
 
 		bw.writeWg.Wait()
 	}
@@ -135,6 +141,11 @@ func (bw *BatchedWriter) Enqueue(object BatchWriteObject) {
 			bw.startBatchWriter()
 		}
 	})
+
+	// StopBatchWriter can not stop the writer between the running check and the queue send,
+	// otherwise the object would be stranded in the queue (or the send would block forever).
+	bw.enqueueMutex.RLock()
+	defer bw.enqueueMutex.RUnlock()
 
 	// abort if the BatchWriter has been stopped
 	if !bw.running.Load() {
